@@ -74,3 +74,21 @@ PROPS["C11"] = {
     "assumptions": ["the process-wide IV is set with SetIV to a 16-byte value and not changed concurrently (see C20)"],
     "not_proved": [],
 }
+
+PROPS["C19"] = {
+    "modules": ["Gmsm.Props.C19"],
+    "theorems": [
+        "Props.C19.reader_stream", "Props.C19.readAll_spec", "Props.C19.writer_stream", "Props.C19.unpad_padStream",
+        "Props.C19.writer_inverse", "Props.C19.cache_le_block", "Props.C19.oldReader_short_read_witness",
+        "Proofs.Padding.fill_spec", "Proofs.Padding.rinv_read", "Proofs.Padding.winv_write",
+    ],
+    "gen_items": [],
+    "level": "proof",
+    "claim": "Lean 4 theorems over a state-machine model of the padding reader and writer: for every data, block size, source behaviour (short reads, zero-byte reads, data returned together with EOF) and caller buffer sizes the reader's output is always a prefix of data||pad and equals it once EOF is returned (invariant by induction over Read calls); for every sequence of write sizes the un-padding writer forwards exactly the un-padded stream and Final errs exactly on an invalid pad; un-pad inverts pad for block sizes 1..255. The stream helpers are compared with SM4-CBC of the padded stream computed in Lean, under scripted sources.",
+    "note": "Trusted: Lean kernel; the hand-written model of sm4/padding is tied to the code by differential runs with a scripted io.Reader (same script semantics on both sides); crypto/cipher CBC, bytes.Buffer/bytes.Reader and io.ReadFull are stdlib; P7BlockEnc/Decrypt loops are covered by correspondence (SM4-CBC spec oracle; 3DES round trip for block size 8), not by a theorem.",
+    "trusted_base": [
+        "Model.Padding mirrors pkcs7_padding_io.go (Reader.read, fill = the inner read loop, Writer.write/final); tie = padrd/padwr correspondence over source lengths 0..600 (quick) / 0..5000 (thorough), block sizes 8 and 16, scripts of up to 6 entries over {0, 1, short, full, with-EOF}, buffer sizes 1..4096, write sizes 1..8192, invalid final blocks",
+    ],
+    "assumptions": ["the source honours the io.Reader contract and makes progress eventually (a source returning (0, nil) forever is outside the property)"],
+    "not_proved": ["enc_dec_stream as a theorem about the P7BlockEnc/P7BlockDecrypt loops (correspondence only)", "progress: Read with a non-empty buffer eventually returns data or EOF (argued from the script being finite; not a theorem)"],
+}
